@@ -51,13 +51,12 @@ async def extract_tar_stream(
     dst: str,
     transferBufferSize: int | None = None,
 ) -> None:
+    # If `dst` is a directory, copy `src` inside `dst`
+    if os.path.isdir(dst):
+        dst = os.path.join(dst, posixpath.basename(src))
     async for member in tar:
-        # If `dst` is a directory, copy the content of `src` inside `dst`
-        if os.path.isdir(dst) and member.path == posixpath.basename(src):
-            await tar.extract(member, dst, numeric_owner=True)
-
-        # Otherwise, if copying a file, simply move it inside `dst`
-        elif member.isfile():
+        # If copying a file, simply move it inside `dst`
+        if member.isfile():
             tarinfo = await tar.getmember(member) if isinstance(member, str) else member
             async with await tar.extractfile(member) as inputfile:
                 path = os.path.normpath(
